@@ -1360,6 +1360,25 @@ func run(c *core.Ctx) {
 		}
 	}
 
+	// (4b) every vertical position valid for the display standard x every justification code, both directions
+	for _, dsc := range []string{"0", "1", "2"} {
+		lo, hi := 0, 99
+		if isTeletext(dsc) {
+			lo, hi = 1, 23
+		}
+		for vp := lo; vp <= hi; vp++ {
+			for jc := 0; jc <= 3 && !stop; jc++ {
+				if !c.Mine() {
+					continue
+				}
+				cs := baseCase(25, dsc)
+				cs.Doc.Blocks[0].VP, cs.Doc.Blocks[0].JC = vp, jc
+				r.exec("vp-jc", cs, 2, true, true, nil)
+				tick()
+			}
+		}
+	}
+
 	// (5) write direction: every millisecond of a second at both frame rates (cue instants as the other
 	// formats deliver them)
 	for _, fps := range []int{25, 30} {
@@ -1445,7 +1464,7 @@ func init() {
 		ID: "C05", Level: "exploration",
 		Rule: "a case = (ground-truth EBU STL model: GSI field values, DFC 25/30, DSC 0/1/2, TCP, TTI blocks incl. user-data blocks, timecodes, VP, JC, rows of styled runs over the Latin table; rendering choices: box form, colour code, style-code form, blanks, trailing break; option ignore-TCP; write options: metadata kind, instant rounding, attribute form, NFC/NFD). Enumerated by the E1 explorer (three full products of small grammars + every case within B deviations of the baseline over all choice points) and by plain nested loops: every timecode of the stated h,m,s sets x ALL frame numbers, TCP x TCI over all frame pairs, every assigned code of the Latin table, every diacritic x base character, diacritic pairs across rows/cues, every string of style codes (<=3 before, <=2|3 inside the text), every millisecond of a second on the write side. Read: ReadFromSTL(ref.Encode(model)) must denote the model (metadata fields, one cue per non-user-data block, instants exact to <1 ns, VP, JC, rows of styled characters up to canonical equivalence), then WriteToSTL of the result must keep every TCI/TCO and re-read to the same instants. Write: WriteToSTL(model) must be 1024+128n bytes and denote the model's cues (instant within one frame) and metadata to ref.Decode and to ReadFromSTL; read-write again keeps every timecode. non-trivial = non-baseline case, distinct by its serialised form",
 		Scope: map[core.Tier]string{
-			core.Quick:    "core product (fps x DSC x TCP x ignore x user-data placement x <=2 rows x <=2 runs x 3 styles x box/style-code forms), block-pattern product (<=3 cues, user-data blocks before each and after), write-option product, deviation ball B=2 over ~150 choice points (<=3 cues, <=3 rows, <=3 runs, 8 styles, 19 text atoms); timecodes {0,1,23}h x {0,1,30,59}m x 0..59 s x all frames at 25 and 30 fps; 13 diacritics x 63 bases; style-code strings <=3 / <=2",
+			core.Quick:    "core product (fps x DSC x TCP x ignore x user-data placement x <=2 rows x <=2 runs x 3 styles x box/style-code forms), block-pattern product (<=3 cues, user-data blocks before each and after), write-option product, deviation ball B=2 over ~150 choice points (<=3 cues, <=3 rows, <=3 runs, 8 styles, 19 text atoms); timecodes {0,1,23}h x {0,1,30,59}m x 0..59 s x all frames at 25 and 30 fps; 13 diacritics x 63 bases; style-code strings <=3 / <=2; every valid VP x JC; every ms of a second (write)",
 			core.Thorough: "as quick with deviation ball B=3, every timecode of the day (24 x 60 x 60 x all frames, both rates), style-code strings <=3 / <=3",
 		},
 		Assumptions: []string{"Go toolchain and standard library; golang.org/x/text/unicode/norm for canonical equivalence of the compared text",
